@@ -58,8 +58,9 @@ def m_npfloat(y_true, y_pred, **kw):
 
 
 def m_tiny(y_true, y_pred, **kw):
-    """The additive metric on the scale of 1e-10 (e.g. a mean squared error of a near-perfect regressor)."""
-    return 1e-10 * m_lin(y_true, y_pred, **kw)
+    """The additive metric on the scale of 1e-14 (values and differences around 1e-13, e.g. a squared error of a
+    near-perfect regressor): nothing may be rounded to zero on an absolute scale."""
+    return 1e-14 * m_lin(y_true, y_pred, **kw)
 
 
 def m_nanhit(y_true, y_pred):
@@ -115,7 +116,7 @@ METRIC_PARAMS = {
 
 SF_NAMES = ["sf", "g", "a_p", "SF 1", "x"]
 CF_NAMES = ["cf", "ctl", "c_0", "k"]
-METRIC_NAMES = ["a", "b", "a_b", "m"]
+METRIC_NAMES = ["a", "b", "a_b", "m", "", 0]  # also falsy names: the empty string and the integer 0
 
 
 @st.composite
